@@ -149,6 +149,26 @@ VARIANTS = [
     V( 'tnet-isinstance-int-first', TNETS, "if type(data) in ((int,long) if sys.version_info[0] < 3 else (int,)): # noqa: F821", "if isinstance( data, int ):", fires=[ 'T-TNET' ] ),
     V( 'econtain-close-removed', MAIN, "except:\n pass\n conn.close()", "except:\n                pass", fires=[ 'E-CONTAIN' ] ),
     V( 'econtain-runner-narrow-except', NETWORK, "return super( server_runner, self ).run()\n except Exception as exc:", "return super( server_runner, self ).run()\n        except AssertionError as exc:", fires=[ 'E-CONTAIN' ] ),
+    # ---- rules added after the first seeding round
+    V( 'codec-usend-pad-dropped', PARSER, "result += octets_encode( data.request.input )\n if len( data.request.input ) % 2:\n result += b'\\x00'\n result += route_path.produce(", "result	       += octets_encode(	data.request.input )\n            result	       += route_path.produce(", silent=[ 'L-CODEC' ], why='an absent pad variant is still one the parser accepts (even length); value-dependent, not decided statically' ),
+    V( 'codec-usend-priority-after-ticks', PARSER, "result += USINT.produce( data.priority )\n result += USINT.produce( data.timeout_ticks )", "result	       += USINT.produce(	data.timeout_ticks )\n            result	       += USINT.produce(	data.priority )", fires=[ 'L-CODEC' ] ),
+    V( 'codec-enip-encode-swapped', PARSER, "UDINT.produce( data.session_handle ),\n UDINT.produce( data.status ),", "UDINT.produce(	data.status ),\n        UDINT.produce(	data.session_handle ),", fires=[ 'L-CODEC' ] ),
+    V( 'codec-status-ext-usint', PARSER, "result += b''.join( UINT.produce( v ) for v in exts )", "result		       += b''.join( USINT.produce( v ) for v in exts )", fires=[ 'L-CODEC' ] ),
+    V( 'codec-string-length-usint', PARSER, "assert value.length < 1<<16, \"STRING must be < 65536 bytes in length; %r\" % value\n\n result += UINT.produce( value.length )", "assert value.length < 1<<16, \"STRING must be < 65536 bytes in length; %r\" % value\n\n        result		       += USINT.produce( value.length )", fires=[ 'L-CODEC' ] ),
+    V( 'codec-cpf-count-udint', PARSER, "result += UINT.produce( len( segments ))", "result		       += UDINT.produce( len( segments ))", fires=[ 'L-CODEC' ] ),
+    V( 'codec-send-data-timeout-first', PARSER, "result += UDINT.produce( data.interface )\n result += UINT.produce( data.timeout )", "result		       += UINT.produce(	data.timeout )\n        result		       += UDINT.produce(	data.interface )", fires=[ 'L-CODEC', 'L-SPEC' ] ),
+    V( 'proceed-list-services-no-return', UCMM, "c_s.service_name = 'Communications'\n\n data.enip.input = bytearray( self.parser.produce( data.enip ))\n\n return True", "c_s.service_name	= 'Communications'\n\n        data.enip.input		= bytearray( self.parser.produce( data.enip ))", fires=[ 'P-PROCEED' ] ),
+    V( 'proceed-unregister-subscript', UCMM, "session = self.__class__.sessions.pop( addr, None )", "session	= self.__class__.sessions[addr]", fires=[ 'P-PROCEED' ] ),
+    V( 'fresh-sts-hoisted', CLIENT, "for reply in replies:\n val = None\n sts = reply.status # sts = # or (#,[#...])", "sts = None\n            for reply in replies:\n                val		= None", fires=[ 'P-FRESH' ] ),
+    V( 'limit-resolved-once', MODBUS, "base, length = next( input )", "base, length	= next( input )\n    limit		= limit or 123", fires=[ 'M-LIMIT' ] ),
+    V( 'lock6-terminal-after-with', LOGIX, "for m,s in engine:\n pass\n # for i,(m,s) in enumerate( engine ):\n # log.detail( \"%s #%3d -> %10.10s; next byte %3d: %-10.10r: %s\",\n # machine.name_centered(), i, s, source.sent, source.peek(),\n # repr( data ) if log.getEffectiveLevel() < logging.DETAIL else misc.reprlib.repr( data ))\n if log.isEnabledFor( logging.DETAIL ):\n log.detail( \"EtherNet/IP CIP Request (Client %16s): %s\", addr, enip_format( data.request ))",
+       "for m,s in engine:\n                        pass\n            assert machine.terminal\n        if log.isEnabledFor( logging.DETAIL ):\n            log.detail( \"EtherNet/IP CIP Request  (Client %16s): %s\", addr, enip_format( data.request ))", fires=[ 'R-LOCK-6' ] ),
+    V( 'resolve-join-always-dot', DOT, "mine = trunc + ( '.' if ( trunc and back ) else '' ) + back", "mine		= trunc + '.' + back", fires=[ 'D-RESOLVE' ] ),
+    V( 'resolve-join-equivalent', DOT, "mine = trunc + ( '.' if ( trunc and back ) else '' ) + back", "mine		= '.'.join( [ trunc, back ] ) if trunc and back else trunc + back", silent=[ 'D-RESOLVE' ] ),
+    V( 'attrkeys-sorted-without-key', LOGIX, "att = int( sorted( instance.attribute, key=misc.natural )[-1] ) if instance.attribute else 0", "att			= int( sorted( instance.attribute )[-1] ) if instance.attribute else 0", fires=[ 'T-ATTRKEYS' ] ),
+    V( 'attrkeys-max-int-generator', LOGIX, "att = int( sorted( instance.attribute, key=misc.natural )[-1] ) if instance.attribute else 0", "att			= max( int( a ) for a in instance.attribute ) if instance.attribute else 0", silent=[ 'T-ATTRKEYS' ] ),
+    V( 'validate-key-equivalent-rewrite', DEVICE, "if stride == 1 and start < stop and stop <= len( self ) and key.stop in (stop,None):", "if stride == 1 and start < stop <= len( self ) and ( key.stop is None or key.stop == stop ):", silent=[ 'D-VALIDATE' ] ),
+    V( 'udp-source-hoisted', MAIN, "try:\n source = rememberable()\n data = dotdict()\n\n # If no/partial EtherNet/IP header received, parsing will fail with a NonTerminal\n # Exception (dfa exits in non-terminal state). Build data.request.enip:\n begun = misc.timer() # waiting for next transaction", "try:\n                data		= dotdict()\n                begun		= misc.timer()", silent=[], fires=[ 'R-ISO' ] ),
 ]
 
 
